@@ -529,9 +529,48 @@ func (e *c06kEnv) malformed(p *c06kPool, lp int) {
 	foreign := e.appCoin[other][0] // a coin that is not of this pair
 	pcd := liqtypes.PoolCoinDenom(p.app, p.id)
 	one := sdkmath.NewInt(1000)
-	kind := e.rng.Intn(12)
+	kind := e.rng.Intn(23)
 	var msg sdk.Msg
+	params, _ := e.k.GetGenericParams(e.ctx, p.app)
+	tp := int(params.TickPrecision)
+	tick := func(s string) sdkmath.LegacyDec { return amm.PriceToDownTick(sdkmath.LegacyMustNewDecFromStr(s), tp) }
+	big1 := sdkmath.NewInt(50_000_000)
+	if kind == 16 { // a second basic pool on a pair that has an active one
+		found := false
+		for _, q := range e.appPools(p.app) {
+			if q.pair == p.pair && !q.ranged && !e.snapPool(q).disabled {
+				found = true
+			}
+		}
+		if !found {
+			kind = 13
+		}
+	}
 	switch kind {
+	case 12:
+		msg = liqtypes.NewMsgCreatePool(99, e.lps[lp], p.pair, e.coinsXY(p, big1, big1))
+	case 13:
+		msg = liqtypes.NewMsgCreatePool(p.app, e.lps[lp], 9999, e.coinsXY(p, big1, big1))
+	case 14:
+		msg = liqtypes.NewMsgCreatePool(p.app, e.lps[lp], p.pair, sdk.NewCoins(sdk.NewCoin(foreign, big1), sdk.NewCoin(p.b, big1)))
+	case 15:
+		msg = liqtypes.NewMsgCreatePool(p.app, e.lps[lp], p.pair, e.coinsXY(p, sdkmath.NewInt(1), big1)) // below MinInitialDepositAmount
+	case 16:
+		msg = liqtypes.NewMsgCreatePool(p.app, e.lps[lp], p.pair, e.coinsXY(p, big1, big1))
+	case 17:
+		msg = liqtypes.NewMsgCreateRangedPool(p.app, e.lps[lp], p.pair, e.coinsXY(p, big1, big1),
+			sdkmath.LegacyMustNewDecFromStr("1.234567"), tick("3"), tick("2")) // min price off the ticks
+	case 18:
+		msg = liqtypes.NewMsgCreateRangedPool(p.app, e.lps[lp], p.pair, sdk.NewCoins(sdk.NewCoin(foreign, big1), sdk.NewCoin(p.b, big1)), tick("1"), tick("3"), tick("2"))
+	case 19:
+		msg = liqtypes.NewMsgCreateRangedPool(p.app, e.lps[lp], p.pair, e.coinsXY(p, sdkmath.NewInt(1), sdkmath.NewInt(1)), tick("1"), tick("3"), tick("2")) // both accepted amounts below the minimum
+	case 20:
+		msg = liqtypes.NewMsgCreateRangedPool(99, e.lps[lp], p.pair, e.coinsXY(p, big1, big1), tick("1"), tick("3"), tick("2"))
+	case 21:
+		msg = liqtypes.NewMsgCreateRangedPool(p.app, e.lps[lp], 9999, e.coinsXY(p, big1, big1), tick("1"), tick("3"), tick("2"))
+	case 22:
+		msg = liqtypes.NewMsgCreateRangedPool(p.app, e.lps[lp], p.pair, e.coinsXY(p, big1, big1),
+			sdkmath.LegacyNewDecWithPrec(1, 15), tick("3"), tick("2")) // min price below the lowest tick
 	case 0:
 		msg = liqtypes.NewMsgDeposit(99, e.lps[lp], p.id, e.coinsXY(p, one, one)) // unknown app
 	case 1:
@@ -1145,7 +1184,7 @@ func (e *c06kEnv) witnessEdges() {
 	e.depositAndFarm(upper, 5, c06kE40.Sub(su.rx).AddRaw(1), sdkmath.NewInt(1))
 	e.depositAndFarm(upper, 5, sdkmath.NewInt(1), c06kE40.Sub(su.ry).AddRaw(1))
 	e.depositAndFarm(upper, 5, c06kE40.QuoRaw(7), c06kE40.QuoRaw(7))
-	for i := 0; i < 24; i++ {
+	for i := 0; i < 60; i++ {
 		e.malformed(mid, i%4)
 	}
 	e.nextBlock(5)
